@@ -251,6 +251,13 @@ def o_plain(fam, fn, x, P, mp):
             return o_pmf(fam, x, P, mp)
         return mp.fsum(o_pmf(fam, j, P, mp) for j in range(int(x) + 1))
     x = mp.mpf(x)
+    # outside the support: density 0, cdf 0 below / 1 above
+    lo, hi = {"exp": (0, None), "gamma": (0, None), "chisq": (0, None), "norm": (None, None), "beta": (0, 1),
+              "unif": (P.get("min"), P.get("max"))}[fam]
+    if lo is not None and x < lo:
+        return mp.mpf(0)
+    if hi is not None and x > hi:
+        return mp.mpf(0) if fn == "d" else mp.mpf(1)
     if fam == "exp":
         r = mp.mpf(P["rate"])
         return r * mp.exp(-r * x) if fn == "d" else -mp.expm1(-r * x)
@@ -294,6 +301,8 @@ def close(got, want, rtol=RTOL, atol=ATOL):
     except (TypeError, ValueError):
         return False, float("inf")
     w = float(want)
+    if math.isinf(w):
+        return g == w, 0.0
     err = abs(g - w)
     return (err <= rtol * abs(w) + atol and not math.isnan(g)), (err / abs(w) if w else err)
 
@@ -316,7 +325,7 @@ def judge_dp(inp):
     plain = o_plain(fam, fn[0], inp["x"], full(fam, inp["params"]), mp)
     if inp["flags"].get("lower_tail") is False:
         plain = 1 - plain
-    want = mp.log(plain) if inp["flags"].get("log") else plain
+    want = (mp.log(plain) if plain != 0 else mp.mpf("-inf")) if inp["flags"].get("log") else plain
     ok, rel = close(got, want)
     if ok:
         STATS["max_rel_err"] = max(STATS["max_rel_err"], rel if abs(float(want)) > 1e-3 else 0.0)
@@ -639,6 +648,24 @@ CORPUS = [
     dict(kind="dp", fn="dpois", fam="pois", x=790, params=dict(mu=800.0), flags=dict(log=True)),
     dict(kind="dp", fn="dbinom", fam="binom", x=1010, params=dict(size=2000, prob=0.5), flags=dict(log=False)),
     dict(kind="dp", fn="dgamma", fam="gamma", x=148.0, params=dict(shape=300.0, rate=2.0), flags=dict(log=True)),
+    # boundary of the parameter space, arguments outside the support, parameters given as integers
+    dict(kind="dp", fn="dpois", fam="pois", x=0, params=dict(mu=0.0), flags=dict(log=False)),
+    dict(kind="dp", fn="dpois", fam="pois", x=0, params=dict(mu=0.0), flags=dict(log=True)),
+    dict(kind="dp", fn="dgamma", fam="gamma", x=-1.0, params=dict(shape=1.0, rate=2.0), flags=dict(log=False)),
+    dict(kind="dp", fn="dgamma", fam="gamma", x=-0.02, params=dict(shape=2.5, rate=20.0), flags=dict(log=False)),
+    dict(kind="dp", fn="dexp", fam="exp", x=-0.5, params=dict(rate=2.0), flags=dict(log=False)),
+    dict(kind="dp", fn="pexp", fam="exp", x=-0.5, params=dict(rate=2.0), flags=dict(log=False)),
+    dict(kind="dp", fn="dunif", fam="unif", x=5.0, params=dict(min=0.0, max=2.0), flags=dict(log=False)),
+    dict(kind="dp", fn="dbeta", fam="beta", x=1.5, params=dict(shape1=2.0, shape2=3.0), flags=dict(log=False)),
+    dict(kind="dp", fn="dexp", fam="exp", x=0.4, params=dict(rate=2), flags=dict(log=False)),
+    dict(kind="dp", fn="pexp", fam="exp", x=0.4, params=dict(rate=3), flags=dict(log=True)),
+    dict(kind="dp", fn="dgamma", fam="gamma", x=1.4, params=dict(shape=2, rate=3), flags=dict(log=False)),
+    dict(kind="dp", fn="pgamma", fam="gamma", x=1.4, params=dict(shape=2.5, rate=2), flags=dict(log=False)),
+    dict(kind="q", fn="qexp", fam="exp", u=0.3, params=dict(rate=2), flags={}),
+    dict(kind="q", fn="qgamma", fam="gamma", u=0.3, params=dict(shape=2.0, rate=4), flags={}),
+    dict(kind="dp", fn="dnorm", fam="norm", x=1, params=dict(mean=0, sd=2), flags=dict(log=False)),
+    dict(kind="seed", fn="rexp", fam="exp", n=3, seed=5, params=dict(rate=4), g1=1, g2=2),
+    dict(kind="dist", fn="rgamma", fam="gamma", n=4000, seed=7, params=dict(shape=3, rate=2), g1=1),
     # far tails in log form: the plain value underflows to 0 there, the log density / log cdf is finite
     dict(kind="dp", fn="dnorm", fam="norm", x=41.0, params=dict(mean=1.0, sd=1.0), flags=dict(log=True)),
     dict(kind="dp", fn="pnorm", fam="norm", x=-40.0, params=dict(mean=0.5, sd=1.0), flags=dict(log=True)),
@@ -703,6 +730,17 @@ def gen_inputs(rng, ndp, nq, nseed, ndist):
         P = gen_params("gamma", rng)
         out.append(dict(kind="dp", fn="dgamma", fam="gamma", x=float(rng.uniform(900.0, 3000.0)) / P["rate"], params=P,
                         flags=dict(log=True)))
+    for _ in range(max(2, ndp // 4)):                 # parameters given as Python ints; arguments outside the support
+        r = int(rng.integers(2, 9))
+        x = float(rng.uniform(0.05, 2.0))
+        out.append(dict(kind="dp", fn="dexp", fam="exp", x=x, params=dict(rate=r), flags=dict(log=bool(rng.random() < 0.5))))
+        out.append(dict(kind="dp", fn="pgamma", fam="gamma", x=x, params=dict(shape=int(rng.integers(1, 6)), rate=r), flags={}))
+        out.append(dict(kind="q", fn="qexp", fam="exp", u=float(rng.uniform(0.05, 0.95)), params=dict(rate=r), flags={}))
+        out.append(dict(kind="dp", fn="dnorm", fam="norm", x=x, params=dict(mean=int(rng.integers(-3, 4)), sd=int(rng.integers(2, 5))), flags={}))
+        P = gen_params("gamma", rng)
+        out.append(dict(kind="dp", fn="dgamma", fam="gamma", x=-float(rng.uniform(0.01, 3.0)), params=P, flags={}))
+        P = gen_params("beta", rng)
+        out.append(dict(kind="dp", fn="dbeta", fam="beta", x=float(rng.uniform(1.01, 3.0)), params=P, flags={}))
     for fam in RDEF:                                  # parameters left to their defaults
         for _ in range(max(2, ndp // 4)):
             keep = {k: v for k, v in gen_params(fam, rng).items() if k not in RDEF[fam]}
